@@ -144,7 +144,8 @@ fn pairs_of(op: &Value, cx: &mut Ctx, ev: &mut Map<String, Value>) -> Vec<(Item,
         for i in 0..cnt {
             let r = gen_rank(pat, i, cnt, &mut st);
             let pre = g["prefix"].as_str().unwrap_or("k");
-            let fine = match pat { "asc" => i as i64, "desc" => -(i as i64), "const" => 0, _ => r * 1000 + (i as i64 % 1000) };
+            let off = g["offset"].as_i64().unwrap_or(0);
+            let fine = off + match pat { "asc" => i as i64, "desc" => -(i as i64), "const" => 0, _ => r * 1000 + (i as i64 % 1000) };
             v.push((Item::new(&format!("{}{}", pre, i), 0), Pri::new_raw(fine, 0)));
         }
         ev.insert("m".into(), json!(cnt));
@@ -499,7 +500,7 @@ fn run<T: QApi>(q: &mut T, op: &Value, cx: &mut Ctx, ev: &mut Map<String, Value>
             for i in 0..cnt {
                 let r = gen_rank(&pat, i, cnt, &mut st);
                 // distinct ranks inside a pattern step keep asc/desc strictly monotone
-                let fine = match pat.as_str() { "asc" => i as i64, "desc" => -(i as i64), "const" => 0, _ => r * 1000 + (i as i64 % 1000) };
+                let fine = n(op, "offset") + match pat.as_str() { "asc" => i as i64, "desc" => -(i as i64), "const" => 0, _ => r * 1000 + (i as i64 % 1000) };
                 let pre = if s(op, "prefix").is_empty() { "k" } else { s(op, "prefix") };
                 q.push(Item::new(&format!("{}{}", pre, i), 0), Pri::new_raw(fine, 0));
             }
